@@ -409,6 +409,8 @@ type replayFile struct {
 	ReplayNote string `json:"replay_note"`
 	ReplayTest string `json:"replay_test,omitempty"`
 	ReplayOut  string `json:"replay_output,omitempty"`
+	Inputs     string `json:"inputs,omitempty"`
+	PkgDir     string `json:"pkg_dir,omitempty"`
 }
 
 func writeReplay(prop string, o *Obligation, en *Engine) replayResult {
@@ -419,7 +421,10 @@ func writeReplay(prop string, o *Obligation, en *Engine) replayResult {
 		Status: o.Status, Solver: o.Solver, SolverOut: o.Output, Model: o.Model,
 		SMTFile: filepath.Join(verifDir, "work", prop, sanitizeFile(o.Name)+".smt2")}
 	rf.ReplayNote = "no concrete replay generated for this obligation"
-	if o.Status == "failed" && o.Model != "" {
+	if o.Replay != nil {
+		rf.PkgDir = o.Replay.PkgDir
+	}
+	if o.Status == "failed" {
 		tryReplay(&rf, o, en)
 	}
 	b, _ := json.MarshalIndent(rf, "", " ")
@@ -445,7 +450,7 @@ func CmdReplay(args []string) int {
 	}
 	fmt.Printf("obligation: %s\nfunction:   %s\nclause:     %s\nstatus:     %s (%s)\n", rf.Obligation, rf.Function, rf.Clause, rf.Status, rf.Solver)
 	if rf.ReplayTest != "" {
-		out, failed := runReplayTest(rf.Function, rf.ReplayTest)
+		out, failed := runReplayTest(rf.PkgDir, rf.ReplayTest)
 		fmt.Println(out)
 		if failed {
 			fmt.Println("replay: the violated clause fails on the real code")
